@@ -38,6 +38,11 @@ namespace Aio.C20
 @[simp] theorem exitsOf_cons_sigEnd (s : Sig) (i : Nat) (l : List Ev) :
     exitsOf (.sigEnd s i :: l) = exitsOf l := by simp [exitsOf]
 
+@[simp] theorem enteredOf_handlerEvs (s : Sig) (id : Nat) (f : Fail) : enteredOf (handlerEvs s id f) = [] := by
+  unfold handlerEvs; split <;> simp
+@[simp] theorem exitsOf_handlerEvs (s : Sig) (id : Nat) (f : Fail) : exitsOf (handlerEvs s id f) = [] := by
+  unfold handlerEvs; split <;> simp
+
 @[simp] theorem groupsOf_nil : groupsOf [] = [] := rfl
 @[simp] theorem groupsOf_cons_grp (a : Nat) (l : List Step) :
     groupsOf (.grp a :: l) = a :: groupsOf l := by simp [groupsOf]
@@ -627,7 +632,7 @@ theorem send_quiet (tbl : List AppDef) (s : Sig) (hs : s ≠ .cleanup) (l : List
   | cons st l ih =>
     have hstep : quiet (runStep tbl s X st).ev = true := by
       cases st with
-      | h id f => simp [runStep, quiet, isTeardownEv]
+      | h id f => simp only [runStep, handlerEvs]; split <;> simp [quiet, isTeardownEv]
       | grp a =>
         cases s with
         | startup => exact enterAll_quiet a _ 0
@@ -645,7 +650,7 @@ theorem send_cleanup_nested (tbl : List AppDef) (l : List Step) (X : Exits) :
   | cons st l ih =>
     have hstep : nestedFrom none (runStep tbl .cleanup X st).ev = true := by
       cases st with
-      | h id f => simp [runStep, nestedFrom]
+      | h id f => simp only [runStep, handlerEvs]; split <;> simp [nestedFrom]
       | grp a => exact exitAll_nested a _ _
     simp only [send]
     split
